@@ -2,7 +2,10 @@
 
 package desync
 
-import "sync/atomic"
+import (
+	"os"
+	"sync/atomic"
+)
 
 // VerifYieldHook, when set, is called at every scheduling point with the name
 // of the site. Used by the verification harness (built with -tags verif) to
@@ -22,4 +25,25 @@ func verifYield(site string) {
 	if f, ok := verifYieldHook.Load().(func(string)); ok {
 		f(site)
 	}
+}
+
+// VerifCloneHooks, when set, replace CanClone and CloneRange so that the harness
+// can emulate a filesystem with FICLONERANGE on one that has none.
+var (
+	VerifCanCloneHook   func(dstFile, srcFile string) bool
+	VerifCloneRangeHook func(dst, src *os.File, srcOffset, srcLength, dstOffset uint64) error
+)
+
+func verifCanClone(dstFile, srcFile string) (bool, bool) {
+	if VerifCanCloneHook == nil {
+		return false, false
+	}
+	return VerifCanCloneHook(dstFile, srcFile), true
+}
+
+func verifCloneRange(dst, src *os.File, srcOffset, srcLength, dstOffset uint64) (error, bool) {
+	if VerifCloneRangeHook == nil {
+		return nil, false
+	}
+	return VerifCloneRangeHook(dst, src, srcOffset, srcLength, dstOffset), true
 }
